@@ -118,6 +118,14 @@ def run(ck, w):
     o = ck.ob("C17.1c", "no branch on the write paths tests a value derived from the clock, randomness or the environment "
                         "(what is written, and when it is flushed, is decided by the data alone)")
     scope0 = g.reachable_from(ENTRIES)
+    # a time stamp READ BACK from a stored head or tail is data of the archive, not the clock: a second
+    # solve in which reading those two fields is clean (writing them is still recorded)
+    T1 = T
+    T = taint.Taint(w, set(), decoded_enums=set(), source_calls=VALUE_SOURCES, bounded_sanitize=False, io_calls=io_clean,
+                    skip_bodies=re.compile(r"^transport::Transport::temp$|^transport::local::Protocol::temp$|^test_fixtures::"),
+                    heap_read_ignore=ALLOWED_TIME_FIELDS | {("band::Band", "head")},
+                    no_prop=re.compile(r"^tracing|monitor::Monitor::(count|error|start_task)|Task::(set_name|increment|set_total)$"))
+    T.solve()
     n_sw = 0
     bad_sw = []
     for n in sorted(scope0):
@@ -144,6 +152,7 @@ def run(ck, w):
     else:
         ck.ok(o, "%d branches" % n_sw, instances=n_sw)
 
+    T = T1
     # ---- 2. order nondeterminism ---------------------------------------------------------------------------
     o = ck.ob("C17.2", "every unordered iteration on the write paths is a reviewed, order-insensitive instance")
     scope = g.reachable_from(ENTRIES)
